@@ -1261,11 +1261,12 @@ pub mod serde {
                     where
                         S: de::SeqAccess<'de>,
                     {
-                        std::iter::repeat_with(|| seq.next_element())
+                        // owned strings: a deserializer cannot always lend `&str` (escapes, readers, `Value`)
+                        std::iter::repeat_with(|| seq.next_element::<String>())
                             .map_while(|e| {
                                 e.transpose().map(|res| {
                                     res.and_then(|amt| {
-                                        Amount::from_str_in(amt, Denomination::Monero)
+                                        Amount::from_str_in(&amt, Denomination::Monero)
                                             .map_err(|e| de::Error::custom(e.to_string()))
                                     })
                                 })
@@ -1294,11 +1295,12 @@ pub mod serde {
                     where
                         S: de::SeqAccess<'de>,
                     {
-                        std::iter::repeat_with(|| seq.next_element())
+                        // owned strings: a deserializer cannot always lend `&str` (escapes, readers, `Value`)
+                        std::iter::repeat_with(|| seq.next_element::<String>())
                             .map_while(|e| {
                                 e.transpose().map(|res| {
                                     res.and_then(|amt| {
-                                        SignedAmount::from_str_in(amt, Denomination::Monero)
+                                        SignedAmount::from_str_in(&amt, Denomination::Monero)
                                             .map_err(|e| de::Error::custom(e.to_string()))
                                     })
                                 })
